@@ -8,7 +8,7 @@ from harness.c17 import sref, iref, chars_eq
 CELL = 'structs::cell::Cell::'
 ERRS = ['#NULL!', '#DIV/0!', '#VALUE!', '#REF!', '#NAME?', '#NUM!', '#N/A']
 KINDS = ['text', 'number', 'bool', 'error', 'blank_formula']
-NUMS = ['0', '1.5', '-2', '100000', '0.1']
+NUMS = ['0', '1.5', '-2', '100000', '0.1', '-0', '1e19', '-1e300', '1e-7', '123456789.125', '9007199254740993']
 class CellTrip(Harness):
     name = 'cell.write_read'; property_id = 'C01'
     entry = [CELL + 'write_to', CELL + 'set_attributes', 'structs::cell_formula::CellFormula::write_to', 'structs::cell_formula::CellFormula::set_attributes', 'structs::shared_string_table::SharedStringTable::set_cell']
@@ -78,6 +78,28 @@ class CellTrip(Harness):
         val = deref_all(v.fields[0]).chars if isinstance(v, Adt) else deref_all(v).chars
         f = pstr(it.call(CELL + 'get_formula', [Ref(cell)]))
         return dt, list(val), f
+    def validate(self, it, seed):
+        """translator validation: the cell texts the interpreter computes for concrete cells equal the ones of the native build"""
+        from engine import containers
+        import re
+        cs = [('number', n) for n in NUMS] + [('text', ' a<&"\n'), ('bool', 'TRUE'), ('error', '#DIV/0!')]
+        nat = native.run_cases([['cell_roundtrip', k, t, ''] for k, t in cs], timeout_each=60); mism = []
+        it.stubs = {'structs::stylesheet::Stylesheet::set_style': lambda it_, st, style: 0}
+        try:
+            for (k, t), n in zip(cs, nat):
+                def once():
+                    cell = Box_(it.call('<structs::cell::Cell as std::default::Default>::default', []))
+                    if k == 'text': it.call(CELL + 'set_value_string::<&str>', [Ref(cell), sref(t)])
+                    elif k == 'number': it.call(CELL + 'set_value_number::<f64>', [Ref(cell), float(t)])
+                    elif k == 'bool': it.call(CELL + 'set_value_bool', [Ref(cell), t == 'TRUE'])
+                    else: it.call(CELL + 'set_error::<&str>', [Ref(cell), sref(t)])
+                    d, v, f = self.show(it, cell)
+                    return '%s|%s|%s' % (d, ''.join(chr(c) for c in v), f)
+                m = concrete(it, once)
+                nn = native.unhx(n[1][0]) if n[0] == 'ok' else None
+                if m[0] != 'ok' or m[1] != nn: mism.append('cell %s %r: mir %r native %r' % (k, t, m, nn))
+        finally: it.stubs = {}
+        return len(cs), mism
     def case_of(self, v):
         m = v['model']; kind = KINDS[m['kind']]
         text = {'text': lambda: ''.join(chr(m['t%d' % i]) for i in range(m.get('len', 0))), 'number': lambda: NUMS[m['num']], 'bool': lambda: 'TRUE' if m['bool'] else 'FALSE', 'error': lambda: ERRS[m['err']], 'blank_formula': lambda: ''}[kind]()
@@ -89,6 +111,63 @@ class CellTrip(Harness):
         before, after = native.unhx(r[1][0]), native.unhx(r[1][1])
         return before != after, 'cell B2 before save %r, after reload %r' % (before, after)
 
+SKINDS = ['text', 'rich', 'rich_bold', 'rich2']
+class SharedStringIntern(Harness):
+    name = 'shared_string.intern'; property_id = 'C01'
+    entry = ['structs::shared_string_table::SharedStringTable::set_cell', 'structs::shared_string_item::SharedStringItem::get_hash_u64', 'structs::rich_text::RichText::get_hash_code', 'structs::text_element::TextElement::get_hash_code', 'structs::text::Text::get_hash_code']
+    classes = {}
+    def __init__(self, tier):
+        self.maxn = 2 if tier == 'quick' else 3
+        self.doc = 'two cell values, each plain text, rich text of one run (without or with a bold run font) or rich text of two runs, with symbolic texts of 0..%d characters, interned one after the other by the real SharedStringTable::set_cell: they get the same shared-string index only if kind, run structure and text are equal (md5 and the AHasher are injective free symbols over what is fed to them)' % self.maxn
+        self.bounds = {'values': 2, 'kinds': SKINDS, 'text_chars': [0, self.maxn], 'alphabet': 'a-z', 'hash_model': 'md5 / ahash as injective functions of their input (collisions of the real hashes are outside the claim)'}
+    def setup(self, it):
+        from engine import cryptomodel as cm
+        cm.install(it); cm.install_digests(it)
+    def value(self, it, ctx, tag):
+        ki = ctx.sym_int(tag + 'kind', 0, len(SKINDS) - 1); kind = SKINDS[next(i for i in range(len(SKINDS)) if ctx.branch(ki == i))]
+        n = ctx.sym_int(tag + 'len', 0, self.maxn); n = next(k for k in range(self.maxn + 1) if ctx.branch(n == k))
+        cs = [ctx.sym_int('%st%d' % (tag, i), 97, 122) for i in range(n)]
+        cell = Box_(it.call('<structs::cell::Cell as std::default::Default>::default', []))
+        if kind == 'text': it.call(CELL + 'set_value_string::<&str>', [Ref(cell), sref(SStr(cs))])
+        else:
+            rt = Box_(it.call('<structs::rich_text::RichText as std::default::Default>::default', []))
+            cut = (len(cs) + 1) // 2 if kind == 'rich2' else len(cs)
+            for k, part in enumerate([cs[:cut], cs[cut:]] if kind == 'rich2' else [cs]):
+                te = Box_(it.call('<structs::text_element::TextElement as std::default::Default>::default', []))
+                it.call('structs::text_element::TextElement::set_text::<&str>', [Ref(te), sref(SStr(part))])
+                if kind == 'rich_bold':
+                    f = it.call('structs::text_element::TextElement::get_run_properties_mut', [Ref(te)])
+                    it.call('structs::font::Font::set_bold', [f, True])
+                it.call('structs::rich_text::RichText::add_rich_text_elements', [Ref(rt), te.v])
+            it.call(CELL + 'set_rich_text', [Ref(cell), rt.v])
+        return cell, kind, cs
+    def run(self, it, ctx, res):
+        from engine import cryptomodel as cm
+        it.world = cm.World()
+        try:
+            ca, ka, ta = self.value(it, ctx, 'a_'); cb, kb, tb = self.value(it, ctx, 'b_')
+            sst = Box_(it.call('<structs::shared_string_table::SharedStringTable as std::default::Default>::default', []))
+            ids = [it.call('structs::shared_string_table::SharedStringTable::set_cell', [Ref(sst), it.call(CELL + 'get_cell_value', [Ref(c)])]) for c in (ca, cb)]
+            count = len(deref_all(it.call('structs::shared_string_table::SharedStringTable::get_shared_string_item', [Ref(sst)])))
+        except Panic as e:
+            self.fail(ctx, res, 'no-panic', str(e)); return
+        same = (ka == kb and len(ta) == len(tb)) and (chars_eq(ta, tb) if ta else True)
+        merged = ids[0] == ids[1]
+        if is_sym(merged): merged = ctx.branch(merged)
+        info = {'kinds': [ka, kb], 'lens': [len(ta), len(tb)], 'ids': [str(i) for i in ids], 'items': count}
+        if merged: self.oblige(ctx, res, 'same-index=>equal-values', same, info=info)
+        else: self.oblige(ctx, res, 'different-index=>different-values', (not same) if isinstance(same, bool) else z3.Not(same), info=info)
+    def case_of(self, v):
+        m = v['model']
+        f = lambda t: [SKINDS[m[t + 'kind']], ''.join(chr(m['%st%d' % (t, i)]) for i in range(m.get(t + 'len', 0)))]
+        c = {'a': f('a_'), 'b': f('b_'), 'oblig': v['oblig']}; c['show'] = dict(c); return c
+    def confirm(self, case, profile):
+        a, b = case['a'], case['b']
+        r = native.run_cases([['sst_pair', a[0], a[1], b[0], b[1]]], profile, timeout_each=60)[0]
+        if r[0] != 'ok': return True, 'cells %r / %r -> %r' % (a, b, r)
+        before, after = native.unhx(r[1][0]), native.unhx(r[1][1])
+        return before != after, 'cells A1/A2 before save %r, after reload %r' % (before, after)
+
 def harnesses(tier):
-    return [CellTrip(tier)]
+    return [CellTrip(tier), SharedStringIntern(tier)]
 OPTIONS = {'want_smir': True}
